@@ -432,6 +432,140 @@ def rule_lp_objective(ctx: Ctx, key: str, rule: str = "lp-objective") -> None:
     ctx.floor("%s LP call paths" % short, checked, 1)
 
 
+def _row_count_of(v, mat: str, vec: str) -> bool:
+    """v is the number of rows of the right-hand side: a_r.shape[0] / len(a_r) / len(b_r) / b_r.shape[0]."""
+    if isinstance(v, tuple) and v[0] == "item" and v[2] == 0 and isinstance(v[1], tuple) and v[1][0] == "attr" and v[1][2] == "shape" and v[1][1] in (("param", mat), ("param", vec)):
+        return True
+    if isinstance(v, tuple) and v[0] == "call" and v[1] == "len" and len(v[2]) == 1 and v[2][0] in (("param", mat), ("param", vec)):
+        return True
+    return False
+
+
+def _row_domain(it, mat: str = "a_r", vec: str = "b_r") -> Optional[str]:
+    """'all' if iterating `it` visits every row (index) of the right-hand side exactly once or more; a reason if it
+    definitely does not; None if unrecognised."""
+    if not isinstance(it, tuple):
+        return None
+    if it in (("param", mat),):
+        return "all"
+    if it[0] == "call" and it[1] in ("reversed", "enumerate", "list", "tuple", "sorted") and len(it[2]) >= 1:
+        return _row_domain(it[2][0], mat, vec)
+    if it[0] == "call" and it[1] == "zip" and it[2]:
+        rs = [_row_domain(x, mat, vec) for x in it[2]]
+        if any(x == ("param", vec) for x in it[2]) and all(r in ("all", None) for r in rs):
+            return "all" if any(r == "all" for r in rs) or all(x in (("param", mat), ("param", vec)) for x in it[2]) else None
+        return "all" if rs and all(r == "all" for r in rs) else None
+    if it[0] == "call" and it[1] == "range":
+        a = it[2]
+        if len(a) == 1:
+            if _row_count_of(a[0], mat, vec):
+                return "all"
+            other = [m for m in ("a_l", "b_l") if mentions(a[0], lambda y, m=m: y == ("param", m))]
+            if other and not mentions(a[0], lambda y: y in (("param", mat), ("param", vec))):
+                return "the bound is the row count of the left-hand side (%s)" % other[0]
+            r = to_rat(a[0])
+            for cand in ((("item", ("attr", ("param", mat), "shape"), 0)), ("call", "len", (("param", vec),), (), 0)):
+                try:
+                    d = (r - to_rat(cand)).as_const()
+                except Exception:
+                    d = None
+                if d is not None and d < 0:
+                    return "stops %s row(s) before the end" % (-d)
+            return None
+        if len(a) >= 2 and _row_count_of(a[1], mat, vec):
+            if is_const(a[0]) and a[0][1] != 0:
+                return "starts at row %s" % a[0][1]
+            if len(a) == 3 and is_const(a[2]) and a[2][1] not in (1,):
+                return "visits every %s-th row only" % a[2][1]
+            if is_const(a[0]) and a[0][1] == 0 and (len(a) == 2 or (is_const(a[2]) and a[2][1] == 1)):
+                return "all"
+        return None
+    if it[0] == "slice" or (it[0] == "sub" and it[1] in (("param", mat), ("param", vec))):
+        return None
+    return None
+
+
+def rule_containment_every_row(ctx: Ctx, rule: str = "containment-every-row") -> None:
+    """C03/C02: verify_polytope_containment decides every row of the right-hand side with an LP.  A row that is passed
+    over on a condition that does not involve the right-hand bounds cannot have been decided (lowering that bound
+    makes the containment false without changing the condition): definite violation; a skip that does look at the
+    bounds is not decided here."""
+    prog = ctx.prog
+    key = PTL + "verify_polytope_containment"
+    fi = prog.func(key)
+    ps = [p for p in Sim(prog, fi, assume=status_assume(0), loop_iters=(0, 1, 2)).paths() if p.terminal == "return"]
+    # the row loop: the loop whose body reaches linprog
+    row_loops: Set[int] = set()
+    for p in ps:
+        stack: List[int] = []
+        for e in p.events:
+            if e["func"] != key:
+                continue
+            if e["kind"] == "loop-iter":
+                if isinstance(e["node"], (ast.For, ast.While)):
+                    stack.append(e["node"].lineno)
+            elif e["kind"] in ("loop-body-end", "loop-continue", "loop-break") and stack:
+                stack.pop()
+            elif e["kind"] == "call" and e["callee"].endswith("linprog") and stack:
+                row_loops.add(stack[0])
+    construct = "verify_polytope_containment: every row of the right-hand side is decided by an LP"
+    if len(row_loops) != 1:
+        ctx.cannot_decide(rule, key, construct, "could not identify the loop over the right-hand rows (LP reached from loops at lines %s)" % sorted(row_loops))
+        return
+    (row_loop,) = row_loops
+    # the loop ranges over all rows of the right-hand side
+    its = {e["it"] for p in ps for e in p.events if e["kind"] == "loop-iter" and e["func"] == key and e["node"].lineno == row_loop and e.get("it") is not None}
+    c2 = "verify_polytope_containment: the LP loop ranges over all rows of the right-hand side"
+    if not its:
+        ctx.cannot_decide(rule, key, c2, "the loop over the right-hand rows is not a for loop")
+    for it in sorted(its, key=repr):
+        v = _row_domain(it)
+        if v == "all":
+            ctx.ok(rule, key, c2)
+        elif v is None:
+            ctx.cannot_decide(rule, key, c2, "iterates over %s" % show(it, 5))
+        else:
+            ctx.violation(rule, key, c2, "iterates over %s: %s" % (show(it, 5), v), where=fi.where)
+    n = 0
+    verdicts: Dict[str, str] = {}
+    for p in ps:
+        seg: Optional[List[dict]] = None
+        depth = 0
+        for e in p.events:
+            if e["func"] != key and seg is None:
+                continue
+            if e["kind"] == "loop-iter" and e["func"] == key and e["node"].lineno == row_loop and seg is None:
+                seg = []
+                depth = 0
+                continue
+            if seg is None:
+                continue
+            if e["kind"] == "loop-iter" and e["func"] == key and isinstance(e["node"], (ast.For, ast.While)):
+                depth += 1
+            ends = e["kind"] in ("loop-body-end", "loop-continue", "loop-break") and e["func"] == key
+            if ends and depth > 0:
+                depth -= 1
+                continue
+            if not ends:
+                seg.append(e)
+                continue
+            n += 1
+            if not any(x["kind"] == "call" and x["callee"].endswith("linprog") for x in seg):
+                tests = [x["test"] for x in seg if x["kind"] == "branch"]
+                looks_at_bound = any(mentions(t, lambda y: y == ("param", "b_r")) for t in tests)
+                what = "; ".join(sorted({norm(x["node"])[:70] for x in seg if x["kind"] == "branch"})) or "(unconditionally)"
+                verdicts[what] = "undecided" if looks_at_bound else "violation"
+            seg = None
+    for what, v in sorted(verdicts.items()):
+        if v == "violation":
+            ctx.violation(rule, key, construct, "a right-hand row is passed over without an LP when: %s - a condition that does not involve the right-hand bounds b_r, so the row cannot have been decided" % what, where=fi.where)
+        else:
+            ctx.cannot_decide(rule, key, construct, "a right-hand row is passed over without an LP when: %s" % what)
+    if not verdicts:
+        ctx.ok(rule, key, construct + " (%d iteration paths)" % n)
+    ctx.floor("containment row iterations", n, 2)
+
+
 def _paired_relaxation(ctx: Ctx, p: PPath, key: str, vecp: str) -> Optional[Fraction]:
     """reduce_polytope: `b_temp[i] += k` before the LP must be undone by `b_temp[i] -= k` before the entry is read again."""
     fi = ctx.prog.func(key)
